@@ -99,6 +99,47 @@ fn main() {
             }
             out.flush().unwrap();
         }
+        "background-check" => {
+            // C08: building a pool calls nothing and nothing happens in the background,
+            // with a multi-threaded runtime alive the whole time
+            let rt = tokio::runtime::Builder::new_multi_thread()
+                .worker_threads(2)
+                .enable_all()
+                .build()
+                .unwrap();
+            let res = rt.block_on(async {
+                let cfg = managed::Cfg {
+                    max: 4,
+                    lifo: false,
+                    pre: vec![false, true],
+                    postr: vec![true],
+                    postc: vec![false],
+                    rt: true,
+                };
+                let w = managed::World::new(cfg);
+                tokio::time::sleep(std::time::Duration::from_millis(150)).await;
+                let after_build = w.sched.drain_events();
+                let o1 = w.pool.get().await.map_err(|_| "get failed")?;
+                let o2 = w.pool.get().await.map_err(|_| "get failed")?;
+                drop(o1);
+                drop(o2);
+                let used = w.sched.drain_events();
+                tokio::time::sleep(std::time::Duration::from_millis(150)).await;
+                let idle_period = w.sched.drain_events();
+                let st = w.pool.status();
+                Ok::<_, &'static str>((after_build, used, idle_period, st.size, st.available))
+            });
+            match res {
+                Ok((a, u, i, size, avail)) => {
+                    writeln!(out, "background after_build={} during_use={} idle_period={} size={} available={}", a.len(), u.len(), i.len(), size, avail).unwrap();
+                    for e in a.iter().chain(i.iter()) {
+                        writeln!(out, "unexpected {}", e).unwrap();
+                    }
+                }
+                Err(e) => writeln!(out, "background error {}", e).unwrap(),
+            }
+            out.flush().unwrap();
+        }
         "replay" => {
             let path = arg(&args, "--in").expect("--in FILE");
             let f = std::io::BufReader::new(std::fs::File::open(path).expect("open in"));
